@@ -45,7 +45,7 @@ func init() {
 		for r := 0; r < reps; r++ {
 			for _, dir := range []string{"forward", "reverse"} {
 				for _, shape := range []string{"Unary", "ClientStream", "ServerStream", "Bidi"} {
-					for _, how := range []string{"already-cancelled", "expires-at-once", "cancel-after-open"} {
+					for _, how := range []string{"already-cancelled", "expires-at-once", "already-expired", "cancel-after-open"} {
 						for _, fc := range []bool{true, false} {
 							for hit := 0; hit < 3; hit++ {
 								cfg := WorldCfg{Dir: dir}
@@ -213,6 +213,12 @@ func famStartCancel(w *World, c *Case, rng *rand.Rand) {
 		cancel()
 	case "expires-at-once":
 		s.Timeout = time.Nanosecond
+	case "already-expired":
+		// the deadline has passed before the call is made
+		var c2 context.CancelFunc
+		ctx, c2 = context.WithTimeout(ctx, time.Microsecond)
+		defer c2()
+		time.Sleep(time.Millisecond)
 	case "cancel-after-open":
 		if shape != "Unary" {
 			s.Client = append([]Op{s.Client[0], {K: "cancel"}}, s.Client[1:]...)
@@ -235,6 +241,25 @@ func famStartCancel(w *World, c *Case, rng *rand.Rand) {
 			es = v.invoke.Err
 		}
 		w.Violate("C07", "tunnel-unusable-after-cancel-at-start", "an RPC cancelled at its very start (%s) left the tunnel unusable: the next RPC ended with %s", w.SigExtra, es)
+	}
+	// the caller's result names the cause (or, when the cancellation came after the RPC had been
+	// opened, may be the complete normal outcome)
+	var t *OpRec
+	if v := buildViews(w.Env)["sc"]; v != nil {
+		t = clientTerminal(v)
+	}
+	if t == nil {
+		w.Violate("C07", "no-terminal-result", "an RPC cancelled at its very start (%s) has no terminal result at the caller", w.SigExtra)
+	} else {
+		w.Stat("startcancel_outcomes_checked", 1)
+		wantCode, wantErr := codes.Canceled, context.Canceled.Error()
+		if how == "expires-at-once" || how == "already-expired" {
+			wantCode, wantErr = codes.DeadlineExceeded, context.DeadlineExceeded.Error()
+		}
+		normal := how == "cancel-after-open" && ((t.K == "invoke" && t.Err == "") || (t.K == "recv" && t.EOF))
+		if !normal && t.Code != wantCode && t.Err != wantErr {
+			w.Violate("C07", "wrong-code-for-cause", "an RPC cancelled at its very start (%s): the caller got code %v (%q), want %v", w.SigExtra, t.Code, t.Err, wantCode)
+		}
 	}
 	select {
 	case <-w.TCh.Done():
